@@ -112,8 +112,9 @@ void harness_block_body(void)
 	const size_t pad = (4 - (g_P & 3)) & 3;
 	const size_t total = g_P + pad + csz;
 	bool pad_bad = false, chk_bad = false;      /* pad_bad: a non-zero padding byte among the n given bytes */
+	size_t first_bad = 0;
 	for (size_t i = 0; i < 3; ++i)
-		if (i < pad && g_P + i < n && in[g_P + i] != 0) pad_bad = true;
+		if (i < pad && g_P + i < n && in[g_P + i] != 0 && !pad_bad) { pad_bad = true; first_bad = g_P + i; }
 	const bool ignore = b.version >= 1 && b.ignore_check;
 	const bool compared = csz > 0 && !ignore && lzma_check_is_supported(b.check);
 	for (size_t i = 0; i < CHKMAX; ++i)
@@ -157,6 +158,10 @@ void harness_block_body(void)
 		CHECK(ret == expect, "OK while incomplete, STREAM_END exactly for a complete valid body, DATA_ERROR exactly for non-zero padding or (complete body) a differing Check -- for every slicing");
 		if (expect != LZMA_DATA_ERROR)
 			CHECK(in_pos == (n >= total ? total : n), "input consumed is fixed by the data, not by the slicing");
+		else if (pad_bad)
+			CHECK(in_pos == first_bad + 1, "rejected right after the first non-zero padding byte, for every slicing");
+		else
+			CHECK(in_pos == total, "a differing Check is rejected after the whole field was read, for every slicing");
 		if (expect == LZMA_DATA_ERROR && pad_bad) WITNESS("non-zero padding rejected");
 		if (expect == LZMA_DATA_ERROR && !pad_bad) WITNESS("check mismatch rejected");
 	}
